@@ -385,4 +385,4 @@ package task
 // Resolving the refs of a matrix must not write into the matrix of the task definition: it is shared by every
 // call of the task (and by concurrently compiling goroutines).
 //@ func resolveMatrixRefs$1
-//@   modifies github.com/go-task/task/v3/internal/templater.*                                                  [C11,C18]
+//@   modifies github.com/go-task/task/v3/internal/templater.*, resolved.om, om_has, om_val, om_len, om_key     [C11,C18]
